@@ -822,9 +822,9 @@ LEVEL_TEXT = (
     'C13_pending_value_not_overwritten_partial, C13_pending_device_attr_not_overwritten, C13_tick_keeps_pending_value); '
     'on reconnect the requests that reach the slave contain exactly one request per pending item, carrying the cached = '
     'user\'s value, all before the refresh, and nothing else (C13_pushed_once_with_user_value, C13_pushed_before_refresh_listen / '
-    '_poll); afterwards nothing is pending (C13_nothing_pending_after). The composition over a whole offline episode is not a '
-    'theorem (a value written while an unread remote value is queued is overwritten by the next tick: ProvThm.'
-    'episode_keeps_last_edits_refuted; assumption: the queue is empty when a value is written offline). The refutations of the same '
+    '_poll); afterwards nothing is pending (C13_nothing_pending_after). Composed over a whole offline episode: for every interleaving of offline edits, remote events and main-loop '
+    'iterations the last value given to every item is what is pending at the end and is sent exactly once '
+    '(C13_episode_keeps_last_edits, C13_episode_pushed_once). ' 'The refutations of the same '
     'statements for the code as found are in History/C13Old.v. Model vs real objects: step-by-step correspondence; real '
     'master vs specification: end-to-end runs with outages on a virtual clock.')
 LEVEL_NOTE = (
